@@ -17,7 +17,11 @@ use engine::*;
 use serde_json::{json, Value};
 use std::time::{Duration, Instant};
 
-const VERIF: &str = "/verif";
+/// output directory (evidence/, replay/, work/) and home of known_findings.json; `VERIF_DIR`
+/// overrides it for runs against scratch copies of the repository (mutation tests)
+pub fn verif_dir() -> String {
+    std::env::var("VERIF_DIR").unwrap_or_else(|_| "/verif".to_string())
+}
 
 fn usage() -> ! {
     eprintln!("usage: mc run|worker <ID> <quick|thorough> | mc replay <file> | mc selftest");
@@ -98,8 +102,8 @@ fn parent(prop: &str, tier: &str) -> i32 {
             let sig = st.signal().unwrap_or(0);
             let ctx = ctx_for(prop, tier);
             let progress = std::fs::read_to_string(progress_path(prop)).unwrap_or_default();
-            let path = format!("{}/replay/{}/crash.json", VERIF, prop);
-            let _ = std::fs::create_dir_all(format!("{}/replay/{}", VERIF, prop));
+            let path = format!("{}/replay/{}/crash.json", verif_dir(), prop);
+            let _ = std::fs::create_dir_all(format!("{}/replay/{}", verif_dir(), prop));
             let j = json!({"property": prop, "engine": "child process", "signal": sig,
                            "case": {"text": format!("worker died on signal {}; last progress: {}", sig, progress.trim())},
                            "expected": "every call returns", "observed": format!("process killed by signal {}", sig)});
@@ -120,7 +124,7 @@ fn parent(prop: &str, tier: &str) -> i32 {
 }
 
 pub fn progress_path(prop: &str) -> String {
-    format!("{}/work/progress-{}.txt", VERIF, prop)
+    format!("{}/work/progress-{}.txt", verif_dir(), prop)
 }
 
 fn write_min_evidence(ctx: &Ctx, violations: u64, why: &str) {
@@ -132,8 +136,8 @@ fn write_min_evidence(ctx: &Ctx, violations: u64, why: &str) {
                      "rule": "run aborted; see the note in samples"},
         "wall_s": 0.0, "violations": violations
     });
-    let _ = std::fs::create_dir_all(format!("{}/evidence", VERIF));
-    let _ = std::fs::write(format!("{}/evidence/{}.json", VERIF, ctx.prop), serde_json::to_string_pretty(&ev).unwrap());
+    let _ = std::fs::create_dir_all(format!("{}/evidence", verif_dir()));
+    let _ = std::fs::write(format!("{}/evidence/{}.json", verif_dir(), ctx.prop), serde_json::to_string_pretty(&ev).unwrap());
 }
 
 // ------------------------------------------------------------------------------------------
@@ -149,11 +153,16 @@ fn worker(prop: &str, tier: &str) -> i32 {
         std::env::var("VERIF_WALL_CAP_S").ok().and_then(|s| s.parse().ok()).unwrap_or(cap),
     ));
     let t0 = Instant::now();
-    let rep = match props::run(&ctx) {
-        Some(r) => r,
-        None => {
+    let rep = match std::panic::catch_unwind(std::panic::AssertUnwindSafe(|| props::run(&ctx))) {
+        Ok(Some(r)) => r,
+        Ok(None) => {
             eprintln!("unknown property {}", prop);
             return 2;
+        }
+        Err(_) => {
+            // a panic outside every guarded subject call: the checker itself failed
+            eprintln!("ENGINE-FAILURE the checker panicked: {}", LAST_PANIC_ANYWHERE.lock().map(|g| g.clone()).unwrap_or_default());
+            return 3;
         }
     };
     finalize(&ctx, rep, t0.elapsed().as_secs_f64())
@@ -168,7 +177,7 @@ struct Known {
 }
 
 fn load_known() -> Vec<Known> {
-    let p = format!("{}/known_findings.json", VERIF);
+    let p = format!("{}/known_findings.json", verif_dir());
     let Ok(txt) = std::fs::read_to_string(&p) else {
         return vec![];
     };
@@ -191,7 +200,7 @@ fn finalize(ctx: &Ctx, rep: Report, wall: f64) -> i32 {
     let known = load_known();
     let classes = rep.collector.classes();
     let total = rep.collector.total();
-    let dir = format!("{}/replay/{}", VERIF, ctx.prop);
+    let dir = format!("{}/replay/{}", verif_dir(), ctx.prop);
     let _ = std::fs::remove_dir_all(&dir);
     let mut new_violations = 0u64;
     let mut known_hits = 0u64;
@@ -218,7 +227,7 @@ fn finalize(ctx: &Ctx, rep: Report, wall: f64) -> i32 {
             });
             std::fs::write(&path, serde_json::to_string_pretty(&j).unwrap()).expect("write replay");
             // determinism: the recorded case must reproduce (twice) before it is printed
-            if props::replayable(v.sub) {
+            if props::replayable(v.sub) && props::case_replayable(&v.case) {
                 let r1 = props::replay_case(ctx, v.sub, &v.case);
                 let r2 = props::replay_case(ctx, v.sub, &v.case);
                 if r1 != r2 || r1.is_empty() {
@@ -258,8 +267,8 @@ fn finalize(ctx: &Ctx, rep: Report, wall: f64) -> i32 {
         "wall_s": (wall * 100.0).round() / 100.0,
         "violations": new_violations,
     });
-    let _ = std::fs::create_dir_all(format!("{}/evidence", VERIF));
-    std::fs::write(format!("{}/evidence/{}.json", VERIF, ctx.prop), serde_json::to_string_pretty(&ev).unwrap())
+    let _ = std::fs::create_dir_all(format!("{}/evidence", verif_dir()));
+    std::fs::write(format!("{}/evidence/{}.json", verif_dir(), ctx.prop), serde_json::to_string_pretty(&ev).unwrap())
         .expect("write evidence");
     for l in &lines {
         println!("{}", l);
